@@ -6,6 +6,7 @@
   the property text for every combination of buffer facts.
 -/
 import ClientGoVerif.Proofs.Perc
+import ClientGoVerif.Proofs.MvccFullSec
 namespace CGV.Props.C04
 open CGV CGV.Mvcc CGV.Perc
 
@@ -126,6 +127,43 @@ theorem init_mutations_facts (pess : Bool) (b : BufEntry) :
     (initOp pess b = some .del → b.hasValue = true ∧ b.value.isEmpty = true ∧ b.newlyInserted = false) ∧
     (initOp pess b = some .checkNotExists → pess = false ∧ b.presumeNotExists = true ∧ b.value.isEmpty = true) ∧
     (initOp pess b = some .lock → b.locked = true) := initOp_facts pess b
+
+/-! ### the store side of async-commit recovery (profile full): what CheckSecondaryLocks tells a resolver, for every key list.
+    Together with rule 4 (`accepted_resolve_obeys_rule4`: commit ts = the largest min_commit_ts reported, rollback only after
+    a `0` outcome) this is why a transaction whose async prewrites were ALL acknowledged can only be committed by whoever
+    meets its locks — and why Commit must not answer a definite error after that point. -/
+open CGV.MvccFull in
+theorem async_recovery_all_locked_reports_every_key (f : FStore) (keys : List Bytes) (T : Nat)
+    (h : ∀ k ∈ keys, PrewriteLocked f T k) :
+    (fcheckSecondaryLocks f keys T).2.commitTS = 0 ∧ (fcheckSecondaryLocks f keys T).2.locks.map (·.key) = keys ∧
+      (fcheckSecondaryLocks f keys T).1 = f.settle { f.base with kv := applyBatch f.base.kv [] } :=
+  sec_all_locked f keys T h
+
+open CGV.MvccFull in
+theorem async_recovery_missing_lock_writes_rollback (f : FStore) (pre post : List Bytes) (k : Bytes) (T : Nat)
+    (hpre : ∀ k' ∈ pre, PrewriteLocked f T k')
+    (hl : (getEntry f.base.kv k).lock.filter (·.startTS == T) = none)
+    (hr : txnCommitInfo (getEntry f.base.kv k).writes T = none) :
+    (fcheckSecondaryLocks f (pre ++ k :: post) T).2.locks = [] ∧ (fcheckSecondaryLocks f (pre ++ k :: post) T).2.commitTS = 0 ∧
+      (fcheckSecondaryLocks f (pre ++ k :: post) T).1 = f.settle { f.base with kv := applyBatch f.base.kv [rollbackMarker k T] } :=
+  sec_first_missing f pre post k T hpre hl hr
+
+open CGV.MvccFull in
+theorem async_recovery_committed_key_reports_commit_ts (f : FStore) (pre post : List Bytes) (k : Bytes) (T : Nat) (c : Write)
+    (hpre : ∀ k' ∈ pre, PrewriteLocked f T k')
+    (hl : (getEntry f.base.kv k).lock.filter (·.startTS == T) = none)
+    (hr : txnCommitInfo (getEntry f.base.kv k).writes T = some c) (hv : c.vt ≠ .rollback) :
+    (fcheckSecondaryLocks f (pre ++ k :: post) T).2.locks = [] ∧ (fcheckSecondaryLocks f (pre ++ k :: post) T).2.commitTS = c.commitTS :=
+  sec_first_committed f pre post k T c hpre hl hr hv
+
+/-- non-vacuity: after an acknowledged async prewrite of two keys both are `PrewriteLocked` -/
+example :
+    let f := (MvccFull.fprewrite {} { mutations := [⟨.put, [0x61], [1], .none⟩, ⟨.put, [0x62], [2], .none⟩], primary := [0x61], startTS := 10, ttl := 3000 }
+      { useAsync := true, secondaries := [[0x62]] }).1
+    ∀ k ∈ [[0x61], [0x62]], MvccFull.PrewriteLocked f 10 k := by
+  intro f k hk
+  simp only [List.mem_cons, List.not_mem_nil, or_false] at hk
+  rcases hk with rfl | rfl <;> exact (MvccFull.prewriteLocked_iff _ _ _).2 (by decide)
 
 /-- non-vacuity: a well-behaved little trace is accepted, a commit below its start ts is not -/
 example : (Monitor.step {} (.commit "c" .answered 10 5 [[0x61]] true false)).isOk = false := by decide
